@@ -334,19 +334,58 @@ trait Accessors {
     }
 }
 
+thread_local! {
+    /// converters other than the parser's, for accessors that take one (built once per thread)
+    static OTHER_CONVERTERS: (Converter, Converter) = (Converter::empty(), Converter::bundled());
+    /// advances with every fingerprint: decides the ORDER in which the accessors are called
+    static ACCESS_NONCE: std::cell::Cell<u64> = const { std::cell::Cell::new(0) };
+}
+
+/// Every metadata accessor, called in an order that changes from one fingerprint to the next and
+/// listed in a fixed order: for plain data the list is the same whatever the order of the calls.
+/// `time` is asked with the parser's converter and with two others (an accessor that takes a
+/// converter must answer for THAT converter, whichever was asked first), and the same list is read
+/// from a clone.
 fn meta_accessors(m: &cooklang::Metadata, conv: &Converter) -> String {
-    format!(
-        "title={:?} description={:?} tags={:?} author={:?} source={:?} time={:?} servings={:?} locale={:?} filtered={}",
-        m.title(),
-        m.description(),
-        m.tags(),
-        m.author().map(|a| (a.name().map(str::to_string), a.url().map(str::to_string))),
-        m.source().map(|a| (a.name().map(str::to_string), a.url().map(str::to_string))),
-        m.time(conv),
-        m.servings(),
-        m.locale(),
-        m.map_filtered().count(),
-    )
+    let nonce = ACCESS_NONCE.with(|c| {
+        let v = c.get();
+        c.set(v.wrapping_add(1));
+        v
+    });
+    let list = |m: &cooklang::Metadata, nonce: u64| -> String {
+        OTHER_CONVERTERS.with(|(empty, bundled)| {
+            let calls: Vec<(&str, Box<dyn Fn() -> String + '_>)> = vec![
+                ("author", Box::new(|| format!("{:?}", m.author().map(|a| (a.name().map(str::to_string), a.url().map(str::to_string)))))),
+                ("description", Box::new(|| format!("{:?}", m.description()))),
+                ("filtered", Box::new(|| format!("{}", m.map_filtered().count()))),
+                ("locale", Box::new(|| format!("{:?}", m.locale()))),
+                ("servings", Box::new(|| format!("{:?}", m.servings()))),
+                ("source", Box::new(|| format!("{:?}", m.source().map(|a| (a.name().map(str::to_string), a.url().map(str::to_string)))))),
+                ("tags", Box::new(|| format!("{:?}", m.tags()))),
+                ("time", Box::new(|| format!("{:?}", m.time(conv)))),
+                ("time/bundled-converter", Box::new(|| format!("{:?}", m.time(bundled)))),
+                ("time/empty-converter", Box::new(|| format!("{:?}", m.time(empty)))),
+                ("title", Box::new(|| format!("{:?}", m.title()))),
+            ];
+            let n = calls.len();
+            let mut idx: Vec<usize> = (0..n).collect();
+            // a permutation from the nonce (Fisher-Yates over a SplitMix stream)
+            let mut x = nonce.wrapping_mul(0x9E37_79B9_7F4A_7C15) ^ 0xACCE55;
+            for i in (1..n).rev() {
+                x = (x ^ (x >> 30)).wrapping_mul(0xBF58_476D_1CE4_E5B9);
+                x ^= x >> 27;
+                idx.swap(i, (x % (i as u64 + 1)) as usize);
+            }
+            let mut vals: Vec<Option<String>> = vec![None; n];
+            for &i in &idx {
+                vals[i] = Some((calls[i].1)());
+            }
+            calls.iter().zip(vals).map(|((name, _), v)| format!("{name}={}", v.unwrap_or_default())).collect::<Vec<_>>().join(" ")
+        })
+    };
+    let own = list(m, nonce);
+    let cloned = list(&m.clone(), nonce ^ 0x5555);
+    format!("{own} clone-reads-the-same={}", own == cloned)
 }
 
 impl Accessors for cooklang::Metadata {
@@ -737,7 +776,7 @@ pub fn perform(parser: &CooklangParser, input: &str, op: &Op, faults: bool, dept
             let n = cooklang::quantity::Number::new_approx(*value, *accuracy, *max_den, *max_whole);
             format!("{n:?}")
         }),
-        OpKind::Render { color } => {
+        OpKind::Render { color, foreign } => {
             let plan: Vec<_> = if faults {
                 op.faults.iter().filter_map(|f| if let Fault::Write { fault } = f { Some(fault.clone()) } else { None }).collect()
             } else {
@@ -746,7 +785,24 @@ pub fn perform(parser: &CooklangParser, input: &str, op: &Op, faults: bool, dept
             let mut w = sim::FaultyWriter::new(plan, true);
             let o = guarded(|| {
                 let r = parser.parse(input);
-                let res = r.report().write("sim.cook", input, *color, &mut w);
+                // what a caller may legitimately pass: another file name, or a source text that is
+                // not (any more) the one the report came from - the file was truncated or emptied
+                // between parsing and displaying. Whatever that renders to, it is a function of
+                // the arguments, and it may not leave anything behind for the next render.
+                let half = {
+                    let mut h = input.len() / 2;
+                    while !input.is_char_boundary(h) {
+                        h -= 1;
+                    }
+                    &input[..h]
+                };
+                let (name, source): (&str, &str) = match foreign {
+                    1 => ("sim.cook", half),
+                    2 => ("sim.cook", ""),
+                    3 => ("other dir/r\u{e9}cipe no 2.cook", input),
+                    _ => ("sim.cook", input),
+                };
+                let res = r.report().write(name, source, *color, &mut w);
                 match res {
                     Ok(()) => "ok".to_string(),
                     Err(e) => format!("err {:?}", e.kind()),
@@ -1183,6 +1239,49 @@ fn reference_phase_inner2(sc: &Scenario, reverse: bool) -> RefPhase {
         if let Some(first) = env.refs.get(&key) {
             if *first != fp {
                 sim::violation("address-dependence", &key, "reference", format!("the same text handed over {} byte(s) into a buffer gives a different result: {}", op.align, first_diff(first, &fp)));
+            }
+        }
+    }
+    // ... and a prefix of the text parsed in place, i.e. followed in the caller's buffer by the rest
+    // of the document (an editor buffer, a chunk of a stream, `&doc[..n]`), against the same
+    // prefix in a `String` of its own: what lies beyond the end of the `&str` is not input.
+    {
+        let mut seen4b = std::collections::BTreeSet::new();
+        for op in sc.all_ops() {
+            let mut op = op.clone();
+            op.faults.clear();
+            op.align = 0;
+            if !matches!(op.kind, OpKind::Parse { cb: None, truncate: None, .. } | OpKind::Metadata { cb: None, .. } | OpKind::Events { take: None, .. }) {
+                continue;
+            }
+            let key = full_key(sc, &op);
+            let text = &sc.inputs[op.input];
+            if text.len() < 2 || text.len() > 50_000 || !seen4b.insert(key.clone()) {
+                continue;
+            }
+            for k in 0..3u64 {
+                let mut cut = 1 + (crate::rng::mix2(fnv(key.as_bytes()), k) % (text.len() as u64 - 1)) as usize;
+                while !text.is_char_boundary(cut) {
+                    cut -= 1;
+                }
+                if cut == 0 {
+                    continue;
+                }
+                let owned = text[..cut].to_string();
+                cooklang::verif_seam::reseed(crate::rng::mix2(sc.hash_seed ^ 0x4B4B, k));
+                let a = match perform(&template_clone(&sc.parsers[op.parser]), &owned, &op, false, 0).outcome {
+                    Outcome::Done(s) => s,
+                    Outcome::Unwound => "UNWOUND-IN-REFERENCE".into(),
+                };
+                cooklang::verif_seam::reseed(crate::rng::mix2(sc.hash_seed ^ 0x4B4B, k));
+                let b = match perform(&template_clone(&sc.parsers[op.parser]), &text[..cut], &op, false, 0).outcome {
+                    Outcome::Done(s) => s,
+                    Outcome::Unwound => "UNWOUND-IN-REFERENCE".into(),
+                };
+                if a != b {
+                    sim::violation("address-dependence", &key, "reference", format!("the first {cut} bytes of the input parsed in place (followed in the caller's buffer by the rest of the text) give a different result than the same {cut} bytes in a String of their own: {}", first_diff(&a, &b)));
+                    break;
+                }
             }
         }
     }
